@@ -10,7 +10,7 @@ VAL = {6: 4, 7: 3, 8: 2, 16: 2, 15: 3, 9: 1, 17: 1, 35: 1, 53: 1}
 HEAVY = [6] * 10 + [7, 7, 8, 8, 8, 16, 15, 9, 17, 35, 53]
 
 
-def random_mol(rng, n_heavy=(4, 14), p_ring=0.5, p_double=0.18, p_triple=0.03, allow_cumulated=False, max_ring_closures=3, elements=None):
+def random_mol(rng, n_heavy=(4, 14), p_ring=0.5, p_double=0.18, p_triple=0.03, allow_cumulated=False, max_ring_closures=3, elements=None, bredt=False):
     """returns an RDKit Mol (no explicit hydrogens, sanitised) or None"""
     from rdkit import Chem
 
@@ -106,7 +106,22 @@ def random_mol(rng, n_heavy=(4, 14), p_ring=0.5, p_double=0.18, p_triple=0.03, a
         return None
     if not ring_double_bonds_consistent(m):
         return None
+    if bredt and not no_bridgehead_alkenes(m):
+        return None
     return m
+
+
+def no_bridgehead_alkenes(m):
+    """Bredt: no atom of a (non-aromatic) double bond belongs to more than one ring"""
+    from rdkit import Chem
+
+    ri = m.GetRingInfo()
+    for b in m.GetBonds():
+        if b.GetBondType() == Chem.BondType.DOUBLE and not b.GetIsAromatic():
+            for x in (b.GetBeginAtomIdx(), b.GetEndAtomIdx()):
+                if ri.NumAtomRings(x) > 1:
+                    return False
+    return True
 
 
 def ring_double_bonds_consistent(m, max_ring=7):
